@@ -3,14 +3,15 @@
 package main
 
 // System-level monitor `sysmon` (+ per-property views sysmon_C09, sysmon_C12, sysmon_C13, sysmon_C14, sysmon_C16,
-// sysmon_C17, sysmon_C28, sysmon_C29, sysmon_C36): four REAL nodes (built by nebula.Main through the C14 shim
+// sysmon_C17, sysmon_C28, sysmon_C29, sysmon_C32, sysmon_C36): four REAL nodes (built by nebula.Main through the C14 shim
 // verif_outside.go and kept in the C14 world container outsWorld) run seeded event histories; after every event a set of
 // system-level oracles is evaluated on every node. There is no model here: an oracle either holds on what the nodes
 // really did or the history is reported with code 2 and the property id of the oracle.
 //
 //	L  10.128.0.1                    lighthouse (v1+v2 certificate)
 //	A  10.128.0.11 + 10.129.0.11     v1 (first address) + v2 (both addresses); remote_allow_list denies 10.66.0.0/16;
-//	                                 unsafe route 192.168.12.0/24 via B
+//	                                 unsafe route 192.168.12.0/24 via B; ECMP unsafe routes 192.168.14.0/24 (B:1, R:1) and
+//	                                 192.168.15.0/24 (B:1, R:3), both networks certified for B and for R
 //	B  10.128.0.12                   v1 only, certified unsafe network 192.168.12.0/24; reachable through relay R;
 //	                                 advertises two unusable underlay addresses next to its real one
 //	R  10.128.0.20 + 10.129.0.20     relay (v1 + v2); remote_allow_list denies 10.66.0.0/16; restricted outbound rules
@@ -24,7 +25,9 @@ package main
 //	         the executable predicates wfb / unreachableb / idxb / releaseb of model/HostMap.v (the ones
 //	         corr/HostMap_corr.v evaluates); HostMap_corr's case type has no dump-only form (its walk replays operations
 //	         on the model), so the cases carry a small walker over dumps that is defined in the generated file header.
-//	C09 C12 C13 C14 C16 C17 C36  evaluated in Go by this file; reported through meta "failures".
+//	C32      every inner packet the harness hands to a tun is sealed at most once in total (whatever the gateway), delivered at
+//	         most once in total, and a packet queued on a pending handshake is sealed exactly once when it completes
+//	C09 C12 C13 C14 C16 C17 C32 C36  evaluated in Go by this file; reported through meta "failures".
 
 import (
 	"bytes"
@@ -46,7 +49,7 @@ import (
 	"verifharness/hx"
 )
 
-var sysmOracles = []string{"C09", "C12", "C13", "C14", "C16", "C17", "C28", "C29", "C36"}
+var sysmOracles = []string{"C09", "C12", "C13", "C14", "C16", "C17", "C28", "C29", "C32", "C36"}
 
 func init() {
 	hx.Register("sysmon", func(c *hx.Ctx) { sysmRun(c, "") })
@@ -101,7 +104,7 @@ type sysmSpec struct {
 	amRelay     bool
 	relays      []string
 	deny        []string // lighthouse.remote_allow_list: denied underlay ranges
-	unsafeRoute [][2]string
+	unsafeRoute []string
 	advertise   []string // what the node reports as its own underlay addresses
 	in          [][]sysmRule
 	out         []sysmRule
@@ -127,7 +130,8 @@ type sysmNode struct {
 	dumps    []string
 	small    map[string]uint64 // canonical small names of addresses ("a…") and 32-bit indexes ("i…") in the dumps
 	live     map[uint64][]netip.Addr
-	known    map[uint64]bool // hostinfo ids seen in the main hostmap
+	stored   map[uint64][]uint64 // pending hostinfo -> markers of the packets queued on it (as last seen)
+	known    map[uint64]bool     // hostinfo ids seen in the main hostmap
 }
 
 const (
@@ -152,20 +156,29 @@ func sysmSpecs() []sysmSpec {
 		{proto: "icmp", host: "any"},
 	}
 	bIn := sysmRule{proto: "udp", lo: 5000, hi: 5010, host: "any", localCidr: "192.168.12.0/24"}
+	gwIn := sysmRule{proto: "udp", lo: 5000, hi: 5008, host: "any", localCidr: "192.168.14.0/23"} // both ECMP networks
+	gwOut := sysmRule{proto: "any", host: "any", localCidr: "192.168.14.0/23"}
+	with := func(base []sysmRule, more ...sysmRule) []sysmRule {
+		return append(append([]sysmRule{}, base...), more...)
+	}
 	return []sysmSpec{
 		{name: sysmL, v1: []string{"10.128.0.1/24"}, v2: []string{"10.128.0.1/24"}, groups: []string{"gl"}, udp: "10.0.0.1:4242", lighthouse: true,
 			in: [][]sysmRule{v0, v1}, out: []sysmRule{anyR}},
 		{name: sysmA, v1: []string{"10.128.0.11/24"}, v2: []string{"10.128.0.11/24", "10.129.0.11/24"}, groups: []string{"ga"}, udp: "10.0.0.11:4242",
-			deny: []string{"10.66.0.0/16"}, unsafeRoute: [][2]string{{"192.168.12.0/24", "10.128.0.12"}},
+			deny: []string{"10.66.0.0/16"},
+			unsafeRoute: []string{"{route: 192.168.12.0/24, via: 10.128.0.12}",
+				"{route: 192.168.14.0/24, via: [{gateway: 10.128.0.12, weight: 1}, {gateway: 10.128.0.20, weight: 1}]}",
+				"{route: 192.168.15.0/24, via: [{gateway: 10.128.0.12, weight: 1}, {gateway: 10.128.0.20, weight: 3}]}"},
 			in: [][]sysmRule{v0, v1}, out: []sysmRule{anyR}},
-		{name: sysmB, v1: []string{"10.128.0.12/24"}, unsafe: []string{"192.168.12.0/24"}, groups: []string{"gb"}, udp: "10.0.0.12:4242",
+		{name: sysmB, v1: []string{"10.128.0.12/24"}, unsafe: []string{"192.168.12.0/24", "192.168.14.0/24", "192.168.15.0/24"}, groups: []string{"gb"}, udp: "10.0.0.12:4242",
 			relays: []string{"10.128.0.20"}, advertise: []string{"10.0.0.12", "10.66.0.12", "10.129.0.50"},
-			in:  [][]sysmRule{append(append([]sysmRule{}, v0...), bIn), append(append([]sysmRule{}, v1...), bIn)},
-			out: []sysmRule{anyR, {proto: "any", host: "any", localCidr: "192.168.12.0/24"}}},
-		{name: sysmR, v1: []string{"10.128.0.20/24"}, v2: []string{"10.128.0.20/24", "10.129.0.20/24"}, groups: []string{"gr"}, udp: "10.0.0.20:4242",
+			in:  [][]sysmRule{with(v0, bIn, gwIn), with(v1, bIn, gwIn)},
+			out: []sysmRule{anyR, {proto: "any", host: "any", localCidr: "192.168.12.0/24"}, gwOut}},
+		{name: sysmR, v1: []string{"10.128.0.20/24"}, v2: []string{"10.128.0.20/24", "10.129.0.20/24"}, unsafe: []string{"192.168.14.0/24", "192.168.15.0/24"},
+			groups: []string{"gr"}, udp: "10.0.0.20:4242",
 			amRelay: true, deny: []string{"10.66.0.0/16"},
-			in:  [][]sysmRule{v0, v1},
-			out: []sysmRule{{proto: "udp", host: "any"}, {proto: "icmp", host: "any"}, {proto: "tcp", lo: 80, hi: 80, host: "any"}, {proto: "tcp", lo: 22, hi: 22, host: "any"}}},
+			in:  [][]sysmRule{with(v0, gwIn), with(v1, gwIn)},
+			out: []sysmRule{{proto: "udp", host: "any"}, {proto: "icmp", host: "any"}, {proto: "tcp", lo: 80, hi: 80, host: "any"}, {proto: "tcp", lo: 22, hi: 22, host: "any"}, gwOut}},
 	}
 }
 
@@ -255,7 +268,7 @@ func (n *sysmNode) yaml(ca *outsCA) string {
 	if len(s.unsafeRoute) > 0 {
 		sb.WriteString("tun:\n  unsafe_routes:\n")
 		for _, r := range s.unsafeRoute {
-			fmt.Fprintf(&sb, "    - {route: %s, via: %s}\n", r[0], r[1])
+			sb.WriteString("    - " + r + "\n")
 		}
 	}
 	return sb.String()
@@ -270,7 +283,7 @@ func sysmNewWorld() (*outsWorld, map[string]*sysmNode) {
 	w.ca = &outsCA{crt: crt, key: key, pem: string(pem)}
 	nodes := map[string]*sysmNode{}
 	for _, s := range sysmSpecs() {
-		n := &sysmNode{spec: s, ids: nebula.VerifSysmonNewIDs(), tracked: map[sysmFlow]bool{}, known: map[uint64]bool{}, small: map[string]uint64{}, live: map[uint64][]netip.Addr{}}
+		n := &sysmNode{spec: s, ids: nebula.VerifSysmonNewIDs(), tracked: map[sysmFlow]bool{}, known: map[uint64]bool{}, small: map[string]uint64{}, live: map[uint64][]netip.Addr{}, stored: map[uint64][]uint64{}}
 		pub, priv := ct.X25519Keypair()
 		n.pub = pub
 		n.keyPEM = string(cert.MarshalPrivateKeyToPEM(cert.Curve_CURVE25519, priv))
@@ -490,13 +503,23 @@ type sysmMon struct {
 	alias   int
 	stats   map[string]int
 	trace   bool
+	wire    map[uint64][]string // marker -> "sender->peer" of every time the packet was sealed for the wire
+	delivAt map[uint64][]string // marker -> nodes that wrote it to their tun
+	expect  []sysmExpect
+}
+
+// sysmExpect: a packet that sat in the queue of a pending handshake when that handshake completed.
+type sysmExpect struct {
+	node, peer string
+	id         uint64
+	want       bool // the outbound firewall lets it go to that peer
 }
 
 func sysmNewMon(c *hx.Ctx) *sysmMon {
 	w, nodes := sysmNewWorld()
 	m := &sysmMon{c: c, w: w, nodes: nodes, order: w.order, seen: map[string]bool{}, pkts: map[uint64]*sysmPkt{}, nextID: 1,
 		deliv: map[string]map[uint64]int{}, ctrs: map[sysmCtrKey]map[uint64]bool{}, attrib: map[string]map[uint64]string{},
-		bad: map[sysmBadKey]bool{}, inner: map[[32]byte]string{}, now: time.Now().Add(time.Minute), stats: map[string]int{},
+		bad: map[sysmBadKey]bool{}, inner: map[[32]byte]string{}, wire: map[uint64][]string{}, delivAt: map[uint64][]string{}, now: time.Now().Add(time.Minute), stats: map[string]int{},
 		trace: os.Getenv("SYSM_TRACE") != ""}
 	for _, n := range m.order {
 		m.deliv[n] = map[uint64]int{}
@@ -615,6 +638,13 @@ func (m *sysmMon) snap(name, peer string) {
 			m.attrib[name][e.H] = peer
 			m.stats["tunnels"]++
 			forget(infos[e.H].Addrs)
+			for _, id := range n.stored[e.H] { // the handshake these packets waited for has completed (C32)
+				if pk := m.pkts[id]; pk != nil && m.nodes[peer] != nil {
+					m.expect = append(m.expect, sysmExpect{name, peer, id, m.outOK(n, m.nodes[peer], infos[e.H].Addrs, pk)})
+					m.stats["queued_completed"]++
+				}
+			}
+			delete(n.stored, e.H)
 		}
 		n.live[e.H] = infos[e.H].Addrs
 		in := infos[e.H]
@@ -632,11 +662,43 @@ func (m *sysmMon) snap(name, peer string) {
 			}
 		}
 	}
+	for _, p := range nebula.VerifSysmonPendingOf(n.VerifOutsideNode, n.ids) {
+		var ids []uint64
+		for _, b := range p.Stored {
+			if _, _, _, _, _, id, ok := sysmParseIP4(b); ok && id != 0 {
+				ids = append(ids, id)
+			}
+		}
+		n.stored[p.ID] = ids
+	}
 	for _, e := range d.Hosts {
 		if sysmHasAddr(n.allAddrs, e.A) {
 			m.fail("C09", name, "main hostmap holds a tunnel keyed by my own address %v", e.A)
 		}
 	}
+}
+
+// outOK: would node n's send path let the queued packet go to peer p (tunnel recorded for addrs): source mine, destination
+// the peer's, an outbound rule or a tracked flow.
+func (m *sysmMon) outOK(n, p *sysmNode, addrs []netip.Addr, pk *sysmPkt) bool {
+	if !sysmHasAddr(n.allAddrs, pk.src) && !sysmInAny(n.unsafe, pk.src) {
+		return false
+	}
+	if !(sysmHasAddr(addrs, pk.dst) && sysmInAny(n.networks, pk.dst)) && !sysmInAny(p.unsafe, pk.dst) {
+		return false
+	}
+	return sysmAllowed(n, p, false, pk.proto, pk.src, pk.dst, pk.dport) || n.tracked[sysmFlowOf(pk.proto, pk.src, pk.dst, pk.sport, pk.dport)]
+}
+
+// checkExpect (C32): every packet that waited on a handshake that has completed was sealed exactly once (if allowed).
+func (m *sysmMon) checkExpect() {
+	for _, x := range m.expect {
+		if c := len(m.wire[x.id]); x.want && c != 1 {
+			pk := m.pkts[x.id]
+			m.fail("C32", x.node, "packet %d (%s, %v -> %v:%d) was queued on the handshake with %s; after it completed the packet was sent %d times %v", x.id, pk.kind, pk.src, pk.dst, pk.dport, x.peer, c, m.wire[x.id])
+		}
+	}
+	m.expect = nil
 }
 
 func sysmAddrsEq(a, b []netip.Addr) bool {
@@ -791,7 +853,7 @@ func (m *sysmMon) observe(dg sysmDgram, parsed bool, h header.H, isRelay bool) {
 			m.fail("C36", dg.from, "%s written to %v, which my remote_allow_list denies", kind, dg.dst)
 		}
 		if parsed && h.Type == header.Handshake && h.MessageCounter == 1 {
-			for _, p := range nebula.VerifSysmonPendingOf(n.VerifOutsideNode) {
+			for _, p := range nebula.VerifSysmonPendingOf(n.VerifOutsideNode, n.ids) {
 				if bytes.Equal(p.Stage0, dg.data) && m.bad[sysmBadKey{dg.from, p.Vpn, dg.dst}] {
 					m.fail("C36", dg.from, "handshake for %v written to %v, which was marked bad after a wrong host answered there", p.Vpn, dg.dst)
 				}
@@ -830,6 +892,18 @@ func (m *sysmMon) observe(dg sysmDgram, parsed bool, h header.H, isRelay bool) {
 		}
 	} else if h.Type != header.Message || h.Subtype != header.MessageNone {
 		return
+	}
+	// oracle C32: an inner packet the harness handed to a tun is sealed at most once, whichever tunnel / gateway carries it
+	if plain, hid, ok := nebula.VerifSysmonSenderPlain(n.VerifOutsideNode, n.ids, ctext); ok {
+		if _, _, _, _, _, id, ok := sysmParseIP4(plain); ok && m.pkts[id] != nil {
+			m.wire[id] = append(m.wire[id], dg.from+"->"+m.attrib[dg.from][hid])
+			if len(m.wire[id]) > 1 {
+				pk := m.pkts[id]
+				m.fail("C32", dg.from, "inner packet %d (%s, %v -> %v:%d) was sent %d times: %v", id, pk.kind, pk.src, pk.dst, pk.dport, len(m.wire[id]), m.wire[id])
+			}
+		}
+	} else {
+		m.stats["sealed_unknown"]++
 	}
 	for _, pn := range m.order {
 		if pn == dg.from {
@@ -874,7 +948,7 @@ func (m *sysmMon) inject(dg sysmDgram, src netip.AddrPort, garbage bool) {
 	// wrong responder bookkeeping (C36): a handshake reply from a host that is not certified for the address looked for
 	var wrongVpn netip.Addr
 	if parsed && h.Type == header.Handshake && h.MessageCounter == 2 && !garbage {
-		for _, p := range nebula.VerifSysmonPendingOf(x.VerifOutsideNode) {
+		for _, p := range nebula.VerifSysmonPendingOf(x.VerifOutsideNode, x.ids) {
 			if p.Local == h.RemoteIndex && p.Local != 0 {
 				if o := m.nodes[dg.origin]; o != nil && !sysmHasAddr(o.allAddrs, p.Vpn) {
 					wrongVpn = p.Vpn
@@ -973,6 +1047,11 @@ func (m *sysmMon) delivered(x *sysmNode, b []byte, garbage bool) {
 	if c := m.deliv[x.name][id]; c > 1 {
 		m.fail("C12", x.name, "inner packet %d (%s, from %s) delivered to the tun %d times", id, pk.kind, pk.sender, c)
 	}
+	m.delivAt[id] = append(m.delivAt[id], x.name)
+	if len(m.delivAt[id]) > 1 { // also across the gateways of one unsafe network
+		m.fail("C12", x.name, "inner packet %d (%s, from %s, %v -> %v) delivered %d times in total, at %v", id, pk.kind, pk.sender, src, dst, len(m.delivAt[id]), m.delivAt[id])
+		m.fail("C32", x.name, "inner packet %d (%s, from %s, %v -> %v) delivered %d times in total, at %v", id, pk.kind, pk.sender, src, dst, len(m.delivAt[id]), m.delivAt[id])
+	}
 	if !(sysmHasAddr(s.allAddrs, src) && sysmInAny(x.networks, src)) && !sysmInAny(s.unsafe, src) {
 		m.fail("C17", x.name, "delivered from peer %s an inner packet with source %v: not a certified address of %s inside my networks %v, nor inside its unsafe networks %v (packet %d, %s)",
 			pk.sender, src, pk.sender, x.networks, s.unsafe, id, pk.kind)
@@ -1058,6 +1137,12 @@ func sysmCommon(s, x *sysmNode, k int) netip.Addr {
 	return c[k%len(c)]
 }
 
+func sysmHostIn(p netip.Prefix, k int) netip.Addr {
+	b := p.Masked().Addr().As4()
+	b[3] += byte(k)
+	return netip.AddrFrom4(b)
+}
+
 func (m *sysmMon) newPkt(sender, to, kind string, proto uint8, src, dst netip.Addr, sport, dport uint16) *sysmPkt {
 	pk := &sysmPkt{id: m.nextID, sender: sender, to: to, src: src, dst: dst, proto: proto, sport: sport, dport: dport, kind: kind}
 	m.nextID++
@@ -1087,10 +1172,10 @@ func (m *sysmMon) evSend(e sysmEv) {
 		kind = "spoofed-source"
 	case 2: // towards / from an unsafe network
 		if len(x.unsafe) > 0 {
-			dst = netip.AddrFrom4([4]byte{192, 168, 12, byte(5 + e.K%3)})
+			dst = sysmHostIn(x.unsafe[0], 5+e.K%3)
 			kind = "to-unsafe"
 		} else if len(s.unsafe) > 0 {
-			src = netip.AddrFrom4([4]byte{192, 168, 12, byte(5 + e.K%3)})
+			src = sysmHostIn(s.unsafe[0], 5+e.K%3)
 			kind = "from-unsafe"
 		} else {
 			src = netip.AddrFrom4([4]byte{192, 168, 12, 9})
@@ -1106,6 +1191,11 @@ func (m *sysmMon) evSend(e sysmEv) {
 		}
 	}
 	dport := f.dport
+	if e.V%8 == 5 && e.A == sysmA { // towards an unsafe network with two gateways (ECMP picks by the flow): many flows
+		f.proto, sport, dport = 17, uint16(40000+e.K%7), uint16(5000+e.K%11)
+		src, dst = s.allAddrs[0], netip.AddrFrom4([4]byte{192, 168, byte(14 + e.K%2), byte(5 + e.K/2%20)})
+		kind = "ecmp"
+	}
 	if e.V%8 == 4 && f.proto != 1 { // the answer to the same flow sent the other way: allowed only by conntrack state
 		sport, dport = dport, sport
 		kind = "reply"
@@ -1353,6 +1443,7 @@ func (m *sysmMon) exec(e sysmEv) {
 	}
 	m.pump()
 	m.snapAll()
+	m.checkExpect()
 }
 
 // ---- histories ------------------------------------------------------------------------------------------------------------------
@@ -1395,6 +1486,27 @@ func sysmCorpus() [][]sysmEv {
 			{Op: "garbage", V: 0, K: 3}, {Op: "garbage", V: 0, K: 5}, {Op: "garbage", V: 0, K: 7}, {Op: "garbage", V: 4, K: 2}, {Op: "garbage", V: 1, K: 2}, {Op: "garbage", V: 3, K: 6},
 		},
 	}
+}
+
+// sysmCorpusECMP: traffic towards the two-gateway unsafe networks while one gateway (then the other, then both) has no
+// tunnel, many flows each, followed by that gateway's handshake completing.
+func sysmCorpusECMP() []sysmEv {
+	S := func(a, b string, k, v int) sysmEv { return sysmEv{Op: "send", A: a, B: b, K: k, V: v} }
+	h := []sysmEv{S(sysmA, sysmB, 0, 0), S(sysmA, sysmR, 0, 0), {Op: "settle"}}
+	down := func(gws ...string) {
+		for _, g := range gws {
+			h = append(h, sysmEv{Op: "close", A: sysmA, B: g}, sysmEv{Op: "close", A: g, B: sysmA})
+		}
+		for k := 0; k < 14; k++ {
+			h = append(h, S(sysmA, gws[0], k+len(h), 29)) // kind ecmp, nothing delivered yet
+		}
+		h = append(h, sysmEv{Op: "net", V: 0, K: 1}, sysmEv{Op: "settle"}, sysmEv{Op: "tick"})
+	}
+	down(sysmB)
+	down(sysmR)
+	down(sysmB, sysmR)
+	h = append(h, S(sysmA, sysmR, 3, 5), S(sysmA, sysmB, 4, 5), S(sysmB, sysmA, 1, 2), sysmEv{Op: "settle"})
+	return h
 }
 
 func (m *sysmMon) randomEv() sysmEv {
@@ -1483,6 +1595,7 @@ func sysmHistory(c *hx.Ctx, script []sysmEv, random int) *sysmMon {
 	m.ev++
 	m.settle(4)
 	m.snapAll()
+	m.checkExpect()
 	return m
 }
 
@@ -1519,7 +1632,7 @@ func sysmRun(c *hx.Ctx, only string) {
 		perShard = 8 // ~15 kB of dump literals per history: Coq elaborates ~20 kB/s
 	}
 	cw := c.NewCaseWriter(coq, "sysm_case", "sysm_check", perShard)
-	corpus := sysmCorpus()
+	corpus := append(sysmCorpus(), sysmCorpusECMP())
 	nRandom := c.N
 	if nRandom < 0 {
 		nRandom = 0
